@@ -354,6 +354,11 @@ def _run(prop, tier, prof, replay_path, t0, sd, work):
         "samples": [behaviours[i] for i in range(0, len(behaviours), max(1, len(behaviours) // 3))][:3],
         "drift_lines": len(drifts),
         "driver_illegal_choices": len(illegal_from),
+        # choices of the real strategies (Leveled, major, FIFO ...) that the model calls unsound:
+        # not a violation of any listed property on their own, recorded (zero on the unchanged tree)
+        "strategy_illegal_choices": sum(
+            1 for m in drifts if m["kind"] == "ILLEGAL"
+            and behaviours[m["beh"]]["ops"][m["step"] - 1].get("op") not in ("compact", "movedown", "pulldown")),
         "drift_samples": drifts[:3],
         "signals_for_other_properties": sorted({m["what"] for m in other}),
         "known_findings_reproduced": sorted({k[0]["id"] for k in known_hits} | set(tlc_known)),
